@@ -400,7 +400,7 @@ def requestsPollNext : Nat → St → Nat → St × ReqPoll
 
 def pollFuel (s : St) : Nat := s.respQ.length + s.t.inbound.length + s.cancelQ.length + s.timers.len + 4
 
-def pollServer (s : St) (now : Nat) : St :=
+def pollServerKeep (s : St) (now : Nat) : St :=
   if s.dropped || s.done.isSome || s.poisoned then emit s .noop
   else
     let obs0 := s.obs
@@ -414,7 +414,7 @@ def pollServer (s : St) (now : Nat) : St :=
       let (s, ret) := match r with
         | .pending => (s, Ret.pending)
         | .none => ({ s with done := some .readyNone }, Ret.readyNone)
-        | .err a => (s, Ret.readyItemErr a)
+        | .err a => ({ s with done := some (.readyItemErr a) }, Ret.readyItemErr a)
         | .spin => (s, Ret.pending)
         | .item rid =>
             match getExec s rid with
@@ -521,7 +521,7 @@ def finishHandler (s : St) (vid : Nat) (res : Res) : St :=
 
 /-- Dropping the `Requests` stream: every tracked handler is aborted, the queues' receivers go. -/
 def dropServer (s : St) : St :=
-  if s.dropped then emit s .noop
+  if s.dropped || s.poisoned then emit s .noop
   else
     let es := s.inflight
     let s := es.foldl (fun s e => abortExec s e.rid) { s with dropped := true, woken := false }
@@ -529,6 +529,12 @@ def dropServer (s : St) : St :=
     let ws := s.rqWaiters
     let s := ws.foldl wakeExec { s with rqWaiters := [] }
     { s with inflight := [], timers := {}, cancelQ := [], respQ := [] }
+
+/-- One poll of the request stream by the application, which — like `Requests::execute` — stops at
+the first error item or at the end of the stream and then drops the stream. -/
+def pollServer (s : St) (now : Nat) : St :=
+  let s := pollServerKeep s now
+  if s.done.isSome && !s.dropped then dropServer s else s
 
 def liftT (s : St) (r : SimT × Bool) : St :=
   let s := { s with t := r.1 }
